@@ -14,3 +14,6 @@ func VerifSetMsgID(v int32) { atomic.StoreInt32(&msgID, v) }
 
 // VerifMsgID reads the counter.
 func VerifMsgID() int32 { return atomic.LoadInt32(&msgID) }
+
+// VerifGenRequestID draws the next request id exactly as a call does.
+func (s *ServantProxy) VerifGenRequestID() int32 { return s.genRequestID() }
